@@ -45,10 +45,10 @@ MIN_REACH = {
     "heatmap_colour_maps_compared": {"quick": 4, "thorough": 80},
     "heatmaps_on_unevenly_spaced_axes": {"quick": 3, "thorough": 60},
     "figures_drawn_after_a_failed_plot_call": {"quick": 5, "thorough": 100},
-    "panel_titles_read_back": {"quick": 100, "thorough": 1500},
+    "panel_titles_read_back": {"quick": 70, "thorough": 1500},
     "histograms_with_explicit_axis_limits": {"quick": 5, "thorough": 100},
     "explicit_colour_limits": {"quick": 8, "thorough": 150},
-    "auto_plots_with_x_values_per_line_and_square_shape": {"quick": 3, "thorough": 50},
+    "auto_plots_with_x_values_per_line_and_square_shape": {"quick": 2, "thorough": 50},
 }
 TIME_BUDGET = {"quick": 500, "thorough": 3400}
 KINDS = ["lineplot", "lineplot", "scatter", "scatter", "histogram", "heatmap", "lineplot_grid", "scatter_grid", "heatmap_grid",
